@@ -4,7 +4,7 @@
    the token stream of the lexer (hook types.VerifTokens: kind, unescaped text, reader line and column after each
    token, and how the stream ended) and the outcome of types.Parse (class, line, column, and the value). *)
 From Coq Require Import ZArith NArith Bool List.
-From PcoreV Require Import Model.Base Model.Lexer Model.Parser Model.Resolve.
+From PcoreV Require Import Model.Base Model.Lexer Model.Parser Model.Resolve Model.ResolveObj.
 Import ListNotations.
 Open Scope Z_scope.
 
@@ -114,3 +114,50 @@ Definition resolve_check (c : c06rcase) : bool :=
   end.
 
 Definition resolve_mismatches (cs : list c06rcase) : list N := failing resolve_check cs.
+
+(* ---- the resolve stage of user-declared Object types (Model/ResolveObj.v) ------------------------------------
+
+   Override cases: Context.ParseType on one text that declares an Object type A with (or without) a member x and an
+   Object type B that inherits from A - directly, over an intermediate type, over an alias, or with the parent
+   written in place - and declares x; the two declarations as the generator wrote them (harness/cmd/c06/gentypeset.go)
+   and the class of the outcome:
+     0 a type | 1 OVERRIDE_MEMBER_MISMATCH | 2 OVERRIDE_OF_FINAL | 3 OVERRIDE_IS_MISSING | 4 OVERRIDE_TYPE_MISMATCH
+     | 5 OVERRIDDEN_NOT_FOUND | 6 Go runtime fault, raw or wrapped | 7 anything else | 8 CONSTANT_WITH_FINAL.
+   Where the model says OPass the type comparison decides (not modelled): a type or OVERRIDE_TYPE_MISMATCH. *)
+Record c06ocase := mkOCase { oc_parent : option decl; oc_child : decl; oc_class : nat }.
+
+Definition ocode_class (c : ocode) : nat :=
+  match c with
+  | MemberMismatch => 1 | OverrideOfFinal => 2 | OverrideIsMissing => 3 | OverriddenNotFound => 5 | ConstantWithFinal => 8
+  end%nat.
+
+Definition override_check (c : c06ocase) : bool :=
+  match declare (oc_parent c) (oc_child c) with
+  | OPass => Nat.eqb (oc_class c) 0 || Nat.eqb (oc_class c) 4
+  | ONoParent => Nat.eqb (oc_class c) 0
+  | OErr e => Nat.eqb (oc_class c) (ocode_class e)
+  | OFault => Nat.eqb (oc_class c) 6
+  end.
+
+Definition override_mismatches (cs : list c06ocase) : list N := failing override_check cs.
+
+(* Parameter cases: Context.ParseType on one text that declares an Object type with xc_n type parameters (own and
+   inherited) and writes Name[arguments]; every argument is `default`, a value of the type of the parameter at its
+   position (PgGood) or a value of no parameter's type (PgBad); named arguments carry the index of the parameter
+   they name.  Classes: 0 a type | 1 EMPTY_TYPE_PARAMETER_LIST | 2 TYPE_MISMATCH | 3 MISSING_TYPE_PARAMETER
+   | 4 NOT_PARAMETERIZED_TYPE | 6 Go runtime fault, raw or wrapped | 7 anything else. *)
+Record c06xcase := mkXCase { xc_n : nat; xc_args : xargs; xc_class : nat }.
+
+Definition xcode_class (c : xcode) : nat :=
+  match c with
+  | EmptyParameterList => 1 | ParamTypeMismatch => 2 | MissingTypeParameter => 3 | NotParameterized => 4
+  end%nat.
+
+Definition params_check (c : c06xcase) : bool :=
+  match ext_initialize (xc_n c) (xc_args c) with
+  | XOk _ => Nat.eqb (xc_class c) 0
+  | XErr e => Nat.eqb (xc_class c) (xcode_class e)
+  | XFault => Nat.eqb (xc_class c) 6
+  end.
+
+Definition params_mismatches (cs : list c06xcase) : list N := failing params_check cs.
